@@ -414,3 +414,24 @@ import sys as _sys
 LOADED_BEFORE_INSTRUMENT = "chartparse.instrument" not in _sys.modules
 '''),
 ], "a module-level value that depends on which module was imported first")
+
+
+mut("c17_thread_local_scratch_not_reentrant", "C17", [
+    ("chartparse/track.py",
+     '''    m = ParsedDataMap()
+    for line in lines:''',
+     '''    _tls.depth = getattr(_tls, "depth", 0)
+    m = _tls.map = ParsedDataMap()
+    for line in lines:'''),
+    ("chartparse/track.py",
+     '''            m[t].append(data)
+            break''',
+     '''            _tls.map[t].append(data)
+            break'''),
+    ("chartparse/track.py",
+     '''logger = logging.getLogger(__name__)''',
+     '''import threading as _threading
+
+_tls = _threading.local()
+logger = logging.getLogger(__name__)'''),
+], "a per-THREAD scratch map (thread-safe, so no interleaving shows it): a nested parse on the same thread - the application's log handler parses another chart while a line is being reported - steals the rest of the outer section's lines")
